@@ -3,16 +3,23 @@
 package c07
 
 import (
+	"encoding/hex"
 	"encoding/json"
 	"fmt"
+	"math"
+	"strings"
 	"testing"
 
 	"github.com/gogpu/naga"
 	"github.com/gogpu/naga/ir"
+	"github.com/gogpu/naga/spirv"
 	"pgregory.net/rapid"
 
 	"verif/internal/ev"
+	"verif/internal/spv"
 	"verif/internal/wgen"
+	"verif/internal/wref"
+	"verif/internal/xrun"
 )
 
 func TestMain(m *testing.M) { ev.Main(m, "C07") }
@@ -231,4 +238,395 @@ func TestPropIR(t *testing.T) {
 			t.Fatalf("%s\n%s", msg, lc.WGSL)
 		}
 	})
+}
+
+// ---------------------------------------------------------------------------
+// Backends: dynamic probes (reader / writer kernels) and SPIR-V decorations.
+
+func pattern(n int) []byte {
+	b := make([]byte, n)
+	for i := range b {
+		b[i] = byte((i*37 + 11) % 0x70) // never a NaN / Inf exponent in any 4-byte window
+	}
+	return b
+}
+
+type probe struct {
+	X     *xrun.Case `json:"x"`
+	Kind  string     `json:"kind"` // reader | writer
+	Space string     `json:"space"`
+}
+
+func leafProbes(tc *wgen.TypeCase) []wgen.Leaf {
+	var leaves []wgen.Leaf
+	wgen.Leaves(tc.T, 0, tc.RtLen, "", &leaves)
+	var out []wgen.Leaf
+	for _, l := range leaves {
+		if l.K == wgen.F16 {
+			continue // f16 leaves are covered by the static checks only
+		}
+		out = append(out, l)
+	}
+	if len(out) > 48 {
+		out = out[:48]
+	}
+	return out
+}
+
+func atomicLeafPaths(t *wgen.Type, path string, out map[string]bool) {
+	switch t.K {
+	case wgen.TAtomic:
+		out[path] = true
+	case wgen.TArray:
+		n := t.N
+		if n == 0 {
+			n = 4
+		}
+		for i := 0; i < n; i++ {
+			atomicLeafPaths(t.Elem, fmt.Sprintf("%s[%d]", path, i), out)
+		}
+	case wgen.TStruct:
+		for _, m := range t.St.Members {
+			atomicLeafPaths(m.T, path+"."+m.Name, out)
+		}
+	}
+}
+
+func buildProbes(tc *wgen.TypeCase) []*probe {
+	if tc.Space == "workgroup" {
+		return nil
+	}
+	leaves := leafProbes(tc)
+	if len(leaves) == 0 {
+		return nil
+	}
+	atomics := map[string]bool{}
+	atomicLeafPaths(tc.T, "", atomics)
+	size := wgen.SizeOfRT(tc.T, tc.RtLen)
+	src := pattern(size)
+	var ps []*probe
+	// reader
+	{
+		access := "read"
+		if len(atomics) > 0 {
+			access = "read_write"
+		}
+		decl := fmt.Sprintf("@group(0) @binding(0) var<storage, %s> src: %s;\n", access, tc.T)
+		if tc.Space == "uniform" {
+			decl = fmt.Sprintf("@group(0) @binding(0) var<uniform> src: %s;\n", tc.T)
+		}
+		var body strings.Builder
+		exp := make([]byte, 4*len(leaves))
+		for k, l := range leaves {
+			e := "src" + l.Path
+			switch {
+			case atomics[l.Path]:
+				e = "atomicLoad(&" + e + ")"
+				if l.K == wgen.I32 {
+					e = "bitcast<u32>(" + e + ")"
+				}
+			case l.K != wgen.U32:
+				e = "bitcast<u32>(" + e + ")"
+			}
+			fmt.Fprintf(&body, "  dst[%d] = %s;\n", k, e)
+			copy(exp[4*k:], src[l.Off:l.Off+4])
+		}
+		wgsl := tc.Enables + tc.Decls + decl + "@group(0) @binding(1) var<storage, read_write> dst: array<u32>;\n@compute @workgroup_size(1) fn main() {\n" + body.String() + "}\n"
+		mask := make([]byte, len(exp))
+		for i := range mask {
+			mask[i] = wref.MaskExact
+		}
+		x := &xrun.Case{WGSL: wgsl, Entry: "main", NumWG: [3]uint32{1, 1, 1}, WGSize: [3]int{1, 1, 1}, RefSteps: 4000,
+			Buffers:  map[string]string{"0,0": hex.EncodeToString(src), "0,1": hex.EncodeToString(pattern(len(exp)))},
+			Expected: map[string]string{"0,0": hex.EncodeToString(src), "0,1": hex.EncodeToString(exp)},
+			Masks:    map[string]string{"0,1": hex.EncodeToString(mask)}}
+		ps = append(ps, &probe{X: x, Kind: "reader", Space: tc.Space})
+	}
+	// writer (storage only)
+	if tc.Space == "storage" {
+		decl := fmt.Sprintf("@group(0) @binding(0) var<storage, read_write> dst: %s;\n", tc.T)
+		var body strings.Builder
+		exp := append([]byte(nil), src...)
+		mask := make([]byte, len(exp))
+		var all []wgen.Leaf
+		wgen.Leaves(tc.T, 0, tc.RtLen, "", &all)
+		for _, l := range all {
+			n := 4
+			if l.K == wgen.F16 {
+				n = 2
+			}
+			for i := 0; i < n; i++ {
+				mask[l.Off+i] = wref.MaskExact
+			}
+		}
+		for k, l := range leaves {
+			var lit string
+			var bits uint32
+			switch l.K {
+			case wgen.U32:
+				bits = uint32(0x1000 + k)
+				lit = fmt.Sprintf("%du", bits)
+			case wgen.I32:
+				bits = uint32(int32(-1000 - k))
+				lit = fmt.Sprintf("%di", int32(bits))
+			default:
+				f := float32(k+1) * 0.5
+				bits = math.Float32bits(f)
+				lit = fmt.Sprintf("%gf", f)
+				if !strings.ContainsAny(lit, ".e") {
+					lit = fmt.Sprintf("%g.0f", f)
+				}
+			}
+			if atomics[l.Path] {
+				fmt.Fprintf(&body, "  atomicStore(&dst%s, %s);\n", l.Path, lit)
+			} else {
+				fmt.Fprintf(&body, "  dst%s = %s;\n", l.Path, lit)
+			}
+			exp[l.Off], exp[l.Off+1], exp[l.Off+2], exp[l.Off+3] = byte(bits), byte(bits>>8), byte(bits>>16), byte(bits>>24)
+		}
+		wgsl := tc.Enables + tc.Decls + decl + "@compute @workgroup_size(1) fn main() {\n" + body.String() + "}\n"
+		x := &xrun.Case{WGSL: wgsl, Entry: "main", NumWG: [3]uint32{1, 1, 1}, WGSize: [3]int{1, 1, 1}, RefSteps: 4000,
+			Buffers:  map[string]string{"0,0": hex.EncodeToString(src)},
+			Expected: map[string]string{"0,0": hex.EncodeToString(exp)},
+			Masks:    map[string]string{"0,0": hex.EncodeToString(mask)}}
+		ps = append(ps, &probe{X: x, Kind: "writer", Space: tc.Space})
+	}
+	return ps
+}
+
+func hasMatRows2(t *wgen.Type) bool {
+	switch t.K {
+	case wgen.TMat:
+		return t.R == 2
+	case wgen.TArray:
+		return hasMatRows2(t.Elem)
+	case wgen.TStruct:
+		for _, m := range t.St.Members {
+			if hasMatRows2(m.T) {
+				return true
+			}
+		}
+	}
+	return false
+}
+
+var probeBackends = map[string]func(*xrun.Case) xrun.Outcome{"spirv": xrun.RunSPIRV, "glsl": xrun.RunGLSL, "hlsl": xrun.RunHLSL, "msl": xrun.RunMSL}
+
+func judgeProbe(backend string) ev.Judge {
+	return func(raw json.RawMessage) (bool, string) {
+		var p probe
+		if err := json.Unmarshal(raw, &p); err != nil {
+			return false, "bad case: " + err.Error()
+		}
+		ok, msg, _ := runProbe(backend, &p)
+		return ok, msg
+	}
+}
+
+func runProbe(backend string, p *probe) (ok bool, msg string, class string) {
+	o := probeBackends[backend](p.X)
+	switch {
+	case o.Rejected != "":
+		return true, "", "rejected"
+	case o.Unsupported != "":
+		return true, "", "unsupported"
+	case o.Invalid != "":
+		return true, "", "invalid-text(other-property)"
+	case o.Bad != "":
+		return false, o.Bad, ""
+	}
+	ok, msg = p.X.Compare(o.Buffers)
+	return ok, msg, ""
+}
+
+func init() {
+	for b := range probeBackends {
+		judges["probe-"+b] = judgeProbe(b)
+	}
+	judges["spirv-decorations"] = judgeDecorations
+}
+
+func probeOpts(t *rapid.T, backend string) map[string]string {
+	switch backend {
+	case "spirv":
+		return map[string]string{"version": []string{"1.0", "1.3", "1.5"}[rapid.IntRange(0, 2).Draw(t, "spvv")]}
+	case "glsl":
+		return map[string]string{"glsl": []string{"430", "450", "es310"}[rapid.IntRange(0, 2).Draw(t, "glv")], "bindmap": "1"}
+	case "hlsl":
+		return map[string]string{"sm": []string{"5.1", "6.0"}[rapid.IntRange(0, 1).Draw(t, "sm")], "zeroinit": "1"}
+	}
+	return map[string]string{"msl": []string{"2.1", "3.0"}[rapid.IntRange(0, 1).Draw(t, "mslv")], "bind": []string{"auto", "map"}[rapid.IntRange(0, 1).Draw(t, "bind")], "zeroinit": "1"}
+}
+
+func TestPropBackends(t *testing.T) {
+	ev.Rule("backends: for each generated type tree two kernels are compiled by every backend and executed by the independent interpreter of the target (SPIR-V decorations, GLSL std430/std140 rules, Metal size/alignment table, HLSL byte addresses and cbuffer packing): a reader copying every 32-bit leaf of the variable to an output array and a writer storing a distinct value to every leaf; the buffers hold a position-unique pattern, so every leaf must be found at its WGSL offset and padding must stay untouched; SPIR-V Offset/ArrayStride/MatrixStride decorations are additionally read and compared with the WGSL layout")
+	backends := []string{"spirv", "glsl", "hlsl", "msl"}
+	rapid.Check(t, func(t *rapid.T) {
+		f16 := false
+		tc := wgen.GenTypeCase(t, f16, ev.Excluded)
+		b := backends[rapid.IntRange(0, len(backends)-1).Draw(t, "backend")]
+		if ev.Excluded("c07.backend." + b) {
+			return
+		}
+		nt := nonTrivial(tc)
+		if b == "glsl" && ev.Excluded("c07.glsl.align-size-attrs") && wgen.AttrsChangeLayout(tc.T, tc.RtLen) {
+			ev.Class("glsl:attributes-move-members:excluded")
+			return
+		}
+		if b == "glsl" && tc.Space == "uniform" && ev.Excluded("c07.glsl.uniform-mat2") && hasMatRows2(tc.T) {
+			ev.Class("glsl:uniform-matCx2:excluded")
+			return
+		}
+		if b == "spirv" && tc.Space != "workgroup" {
+			lc := buildCase(tc)
+			raw, _ := json.Marshal(lc)
+			if ok, msg := judgeDecorations(raw); !ok {
+				ev.Fail("spirv-decorations", lc, msg)
+				t.Fatalf("%s\n%s", msg, lc.WGSL)
+			}
+			ev.Class("spirv-decorations-checked")
+		}
+		for _, p := range buildProbes(tc) {
+			p.X.Opts = probeOpts(t, b)
+			ok, msg, class := runProbe(b, p)
+			ev.Eval(ev.HashS(p.X.WGSL, b, fmt.Sprint(p.X.Opts)), nt && class == "")
+			ev.Class("probe:" + b + ":" + p.Kind)
+			ev.Class("space:" + tc.Space)
+			if class != "" {
+				ev.Class("probe-" + class + ":" + b)
+				if ev.WantSample("skipped-" + class + "-" + b) {
+					o := probeBackends[b](p.X)
+					ev.Sample("skipped-"+class+"-"+b, map[string]string{"why": o.Rejected + o.Unsupported + o.Invalid, "wgsl": p.X.WGSL})
+				}
+				continue
+			}
+			if nt && ev.WantSample("probe-"+b) {
+				ev.Sample("probe-"+b, p)
+			}
+			if !ok {
+				ev.Fail("probe-"+b, p, msg)
+				t.Fatalf("%s (%s %s)\n%s", msg, b, p.Kind, p.X.WGSL)
+			}
+		}
+	})
+}
+
+// judgeDecorations compares the Offset / ArrayStride / MatrixStride
+// decorations of the emitted SPIR-V with the expected layout.
+func judgeDecorations(raw json.RawMessage) (bool, string) {
+	var c LayoutCase
+	if err := json.Unmarshal(raw, &c); err != nil {
+		return false, "bad case: " + err.Error()
+	}
+	if c.Space == "workgroup" {
+		return true, ""
+	}
+	// make the variable used so that it is emitted
+	src := strings.Replace(c.WGSL, "fn main() { }", "fn main() { let p = &v; }", 1)
+	m, _, err := xrun.Lower(src)
+	if err != nil {
+		return true, "skip: " + err.Error()
+	}
+	bin, err := naga.GenerateSPIRV(m, spirv.Options{Version: spirv.Version1_3})
+	if err != nil {
+		return true, "skip: " + err.Error()
+	}
+	mod, err := spv.Parse(bin)
+	if err != nil {
+		return false, "emitted SPIR-V does not parse: " + err.Error()
+	}
+	var rv *spv.ResourceVar
+	for _, r := range mod.ResourceVars() {
+		r := r
+		if r.HasBind && r.Set == 0 && r.Binding == 0 {
+			rv = &r
+		}
+	}
+	if rv == nil {
+		return true, "skip: variable not emitted"
+	}
+	idx := 0
+	const decOffset, decArrayStride, decMatrixStride = 35, 6, 7
+	var walk func(id uint32, memberOf uint32, member int) string
+	walk = func(id uint32, memberOf uint32, member int) string {
+		if idx >= len(c.Expect) {
+			return "type tree larger than expected"
+		}
+		e := c.Expect[idx]
+		idx++
+		t := mod.Type(id)
+		if t == nil {
+			return e.Path + ": unknown type id"
+		}
+		switch e.Kind {
+		case "struct":
+			if t.Kind != spv.TStruct || len(t.Members) != e.N {
+				return fmt.Sprintf("%s: expected a struct with %d members, SPIR-V has %s", e.Path, e.N, mod.TypeString(id))
+			}
+			for i, mid := range t.Members {
+				want := c.Expect[idx]
+				d, ok := mod.MemberDeco(id, i, decOffset)
+				if !ok {
+					return fmt.Sprintf("%s: member %d has no Offset decoration", e.Path, i)
+				}
+				if int(d.Params[0]) != want.Offset {
+					return fmt.Sprintf("%s: Offset %d, WGSL offset %d", want.Path, d.Params[0], want.Offset)
+				}
+				if msg := walk(mid, id, i); msg != "" {
+					return msg
+				}
+			}
+		case "array":
+			if t.Kind != spv.TArray && t.Kind != spv.TRuntimeArray {
+				return fmt.Sprintf("%s: expected an array, SPIR-V has %s", e.Path, mod.TypeString(id))
+			}
+			d, ok := mod.Deco(id, decArrayStride)
+			if !ok {
+				return fmt.Sprintf("%s: array without ArrayStride", e.Path)
+			}
+			if int(d.Params[0]) != e.Stride {
+				return fmt.Sprintf("%s: ArrayStride %d, WGSL stride %d", e.Path, d.Params[0], e.Stride)
+			}
+			return walk(t.Elem, memberOf, member)
+		case "mat":
+			if t.Kind != spv.TMatrix {
+				return fmt.Sprintf("%s: expected a matrix, SPIR-V has %s", e.Path, mod.TypeString(id))
+			}
+			if memberOf != 0 {
+				d, ok := mod.MemberDeco(memberOf, member, decMatrixStride)
+				if !ok {
+					return fmt.Sprintf("%s: matrix member without MatrixStride", e.Path)
+				}
+				col := mod.Type(t.Elem)
+				rows := int(col.Count)
+				w := int(mod.Type(col.Elem).Width) / 8
+				want := rows * w
+				if rows == 3 {
+					want = 4 * w
+				}
+				if int(d.Params[0]) != want {
+					return fmt.Sprintf("%s: MatrixStride %d, WGSL column stride %d", e.Path, d.Params[0], want)
+				}
+			}
+		}
+		return ""
+	}
+	pt := mod.Type(rv.Pointee)
+	first := walk(rv.Pointee, 0, 0)
+	if first == "" {
+		return true, ""
+	}
+	// naga wraps some variables in a one-member block struct
+	if pt != nil && pt.Kind == spv.TStruct && len(pt.Members) == 1 {
+		if d, ok := mod.MemberDeco(rv.Pointee, 0, decOffset); !ok || d.Params[0] != 0 {
+			return false, "wrapper struct member without Offset 0"
+		}
+		idx = 0
+		if msg := walk(pt.Members[0], rv.Pointee, 0); msg != "" {
+			return false, msg
+		}
+		return true, ""
+	}
+	return false, first
+	return true, ""
 }
